@@ -208,7 +208,6 @@ def worker_instance(case, seed):
     for i, c in enumerate(rounds):
         X, bounds, cons, obj = CP.dict_to_z3(c.first_stage)
         s = z3.SolverFor("QF_LRA")
-        s.set("timeout", case.get("timeout_ms", 600000))
         s.add(bounds)
         s.add(list(cons.values()))
         v = c.obj
@@ -216,10 +215,8 @@ def worker_instance(case, seed):
         slack = eps * abs(v) + 1e-7
         for nm, goal, want in (("no feasible point beats CBC's value by more than 1e-4 (%s round)" % c.type, obj >= CP.rat(v + slack), "unsat"),
                                ("a feasible point reaches CBC's value within 1e-4 (%s round)" % c.type, obj >= CP.rat(v - slack), "sat")):
-            s.push()
-            s.add(goal)
             t = time.time()
-            r = str(s.check())
+            r = Q.hard_check(s, goal, case.get("timeout_s", 150))
             tq += time.time() - t
             nq += 1
             counts[r] += 1
@@ -232,10 +229,17 @@ def worker_instance(case, seed):
                 ob["sat"] += 1
                 better = None
                 if r == "sat":
-                    better = float(s.model().eval(obj, model_completion=True).as_fraction())
+                    # how much better: bisect with a few more bounded queries (the binary prints no model by default)
+                    lo, hi = v + slack, v + max(1.0, abs(v))
+                    for _ in range(12):
+                        mid = (lo + hi) / 2
+                        if Q.hard_check(s, obj >= CP.rat(mid), case.get("timeout_s", 150)) == "sat":
+                            lo = mid
+                        else:
+                            hi = mid
+                    better = lo
                 cex.append(dict(obligation=nm, model={}, info="round %d (%s): CBC reports %r; exact LP %s" % (i + 1, c.type, v, ("has a feasible point with objective %r" % better) if better is not None else "cannot reach it"),
                                 cbc=v, better=better))
-            s.pop()
     st = dict(paths=len(rounds), completed=len(rounds), pruned_by_code_assertions=0, pruned_other=0, queries=nq, solver_s=round(tq, 2), branches=0, unsat=counts["unsat"], sat=counts["sat"],
               unknown=counts["unknown"], forks=0, rounds=len(rounds), lp_sizes=[(len(c.first_stage["variables"]), len(c.first_stage["constraints"])) for c in rounds], pipeline_s=round(time.time() - t0 - tq, 1))
     return dict(stats=st, obligations=obligations, cex=cex, errors=[], n_errors=0, canary_bad=0 if rounds else 1)
@@ -281,7 +285,9 @@ def main(tier, seed, only=None):
     inst = []
     picks = [("ARG", n) for n in names if n.startswith("argentina")] + [("USA", n) for n in names if n.startswith("baseline_USA")][:1]
     for c, n in picks:
-        inst.append(dict(country=c, scenario=n, NM=48 if not thorough else 120))
+        if not thorough and n.endswith("more_area"):
+            continue        # the largest captured LP (seaweed + expansion): ~10 s per exact query on an idle machine, kept for the thorough tier
+        inst.append(dict(country=c, scenario=n, NM=48 if not thorough else 120, timeout_s=150 if not thorough else 900))
     if not thorough:
         inst += [dict(country=c, scenario=n, NM=72) for c, n in (("FRA", names[0]), ("NZL", names[-1]), ("IND", names[1 % len(names)]), ("JPN", names[2 % len(names)]))]
     if thorough:
